@@ -1,5 +1,6 @@
 import Proofs.C18Frame
 import Proofs.C18Heap
+import Model.CompressRecv
 /-!
 # C18 — compression is transparent and only used as negotiated (property theorems)
 
@@ -420,6 +421,242 @@ theorem C18_unexpected_compressed (f : Framer) (h : Head) (r : Bytes)
 
 example : (newFramer none 4).readFrame { version := 0x84, flags := 1, stream := 0, op := 8, length := 2 } [1, 2]
     = .error .noCompressor := by rfl
+
+/-! ### compressed frames on EVERY receive path (Model/CompressRecv.lean)
+
+FULL STATEMENT: whatever frame arrives on whatever stream — a response to a waiting call, a server
+event (stream -1), a reserved stream, a stream nobody waits on, one of the two responses of the
+handshake — with the compression flag and no (negotiated) compressor, or with a body the compressor
+rejects: the outcome is an error handed to the caller or the connection closed with that error;
+never a crash of the reader goroutine, never an event / a response with some other body. Holds for
+the code that exists (the event branch returns the error of readFrame); does not hold for the
+variant that only logs it (`C18_cex_event_log_only`). -/
+
+/-- **No receive path crashes**: for every compressor, version, set of waiting calls, header and
+    bytes on the wire, `recv` never dereferences the header of a framer whose readFrame failed. -/
+theorem C18_recv_no_crash (comp : Option Codec) (version : UInt8) (ns : Int) (calls : List Int)
+    (h : Head) (r : Bytes) : recv .ret comp version ns calls h r ≠ .crash := by
+  unfold recv
+  split
+  · simp
+  split
+  · unfold Framer.readInto
+    cases hr : (newFramer comp version).readFrame h r <;> simp [handleEvent]
+  split
+  · cases hr : (newFramer comp version).readFrame h r <;> simp
+  split <;> simp
+
+/-- **A compressed frame without compressor / a rejected body is an error on every path.** With the
+    compress bit set, a body that is fully there, and either no compressor on the connection or a
+    compressor that rejects the body: the event path and the reserved streams close the connection
+    with exactly that error, a waiting call gets exactly that error; no path produces an event or a
+    successful response. -/
+theorem C18_recv_compressed_error (comp : Option Codec) (version : UInt8) (ns : Int) (calls : List Int)
+    (h : Head) (r : Bytes)
+    (hflag : h.flags &&& flagCompress = flagCompress)
+    (h0 : 0 ≤ h.length) (hmax : h.length ≤ maxFrameSize) (hr : h.length.toNat ≤ r.length)
+    (hbad : comp = none ∨ ∃ c, comp = some c ∧ c.dec (r.take h.length.toNat) = .error ()) :
+    ∃ e, (e = .noCompressor ∨ e = .codec) ∧
+      (h.stream ≤ ns → h.stream ≤ 0 → recv .ret comp version ns calls h r = .close (.read e)) ∧
+      (h.stream ≤ ns → 0 < h.stream → h.stream ∈ calls →
+          recv .ret comp version ns calls h r = .deliver h.stream (.error e)) ∧
+      (∀ h' b, recv .ret comp version ns calls h r ≠ .event h' b) ∧
+      (∀ s b, recv .ret comp version ns calls h r ≠ .deliver s (.ok b)) := by
+  have hU := C18_unexpected_compressed (newFramer comp version) h r hflag h0 hmax hr
+  have hcomp : (newFramer comp version).comp = comp := rfl
+  have hread : ∃ e, (e = Err.noCompressor ∨ e = Err.codec) ∧ (newFramer comp version).readFrame h r = .error e := by
+    rcases hbad with hn | ⟨c, hc, hd⟩
+    · exact ⟨_, .inl rfl, hU.1 (hcomp ▸ hn)⟩
+    · exact ⟨_, .inr rfl, hU.2.1 c (hcomp ▸ hc) hd⟩
+  obtain ⟨e, he, hrf⟩ := hread
+  refine ⟨e, he, ?_, ?_, ?_, ?_⟩
+  · intro hns hle
+    have h1 : ¬ h.stream > ns := by omega
+    unfold recv
+    rw [if_neg h1]
+    by_cases hm : h.stream = -1
+    · rw [if_pos hm]; simp [Framer.readInto, hrf]
+    · rw [if_neg hm, if_pos hle]; simp [hrf]
+  · intro hns hpos hmem
+    have h1 : ¬ h.stream > ns := by omega
+    have h2 : ¬ h.stream = -1 := by omega
+    have h3 : ¬ h.stream ≤ 0 := by omega
+    have h4 : calls.contains h.stream = true := by simpa using hmem
+    unfold recv
+    rw [if_neg h1, if_neg h2, if_neg h3, if_pos h4, hrf]
+  · intro h' b
+    unfold recv
+    split
+    · simp
+    split
+    · simp [Framer.readInto, hrf]
+    split
+    · simp [hrf]
+    split <;> simp
+  · intro s b
+    unfold recv
+    split
+    · simp
+    split
+    · simp [Framer.readInto, hrf, handleEvent]
+    split
+    · simp [hrf]
+    split
+    · simp [hrf]
+    · simp
+
+/-- **What the peer encoded is what every path hands on.** If the frame on the wire decodes (by
+    `C18_transparent`: whenever the peer built it from `body` with a compressor that round-trips, or
+    without compression), the event path hands exactly `body` to the session and a waiting call gets
+    exactly `body`. -/
+theorem C18_recv_transparent (comp : Option Codec) (version : UInt8) (ns : Int) (calls : List Int)
+    (wire : Bytes) (h : Head) (body : Bytes)
+    (hd : (newFramer comp version).decode wire = .ok (h, body)) :
+    ∃ rest, readHeader wire = .ok (h, rest) ∧
+      (h.stream ≤ ns → h.stream = -1 → recv .ret comp version ns calls h rest = .event h body) ∧
+      (h.stream ≤ ns → 0 < h.stream → h.stream ∈ calls →
+          recv .ret comp version ns calls h rest = .deliver h.stream (.ok body)) := by
+  unfold Framer.decode at hd
+  cases hh : readHeader wire with
+  | error e => simp [hh] at hd
+  | ok p =>
+    obtain ⟨h1, rest⟩ := p
+    simp only [hh] at hd
+    cases hf : (newFramer comp version).readFrame h1 rest with
+    | error e => simp [hf] at hd
+    | ok b =>
+      simp only [hf, Except.ok.injEq, Prod.mk.injEq] at hd
+      obtain ⟨rfl, rfl⟩ := hd
+      refine ⟨rest, rfl, ?_, ?_⟩
+      · intro hns hm
+        have h1' : ¬ h1.stream > ns := by omega
+        unfold recv
+        rw [if_neg h1', if_pos hm]
+        simp [Framer.readInto, hf, handleEvent]
+      · intro hns hpos hmem
+        have h1' : ¬ h1.stream > ns := by omega
+        have h2 : ¬ h1.stream = -1 := by omega
+        have h3 : ¬ h1.stream ≤ 0 := by omega
+        have h4 : calls.contains h1.stream = true := by simpa using hmem
+        unfold recv
+        rw [if_neg h1', if_neg h2, if_neg h3, if_pos h4, hf]
+
+/-- FULL STATEMENT ("no receive path crashes, whatever recv does with a readFrame error") is false for
+    the variant of the event branch that logs the error and goes on: kernel-checked witness — a
+    two-byte EVENT frame with the compress bit on a connection without compressor; also the replay
+    input for the real code (op `rx`, step `e=1/…`). -/
+theorem C18_cex_event_log_only :
+    recv .logOnly none 4 32768 [] { version := 0x84, flags := 1, stream := -1, op := 12, length := 2 } [1, 2] = .crash ∧
+    recv .ret none 4 32768 [] { version := 0x84, flags := 1, stream := -1, op := 12, length := 2 } [1, 2]
+      = .close (.read .noCompressor) := by
+  decide
+
+/-- **The handshake.** The two responses of the handshake go through the same readFrame: the result
+    is an error value or the compressor negotiated against the SUPPORTED body that was actually read;
+    a compressed SUPPORTED without a configured compressor, and a compressed READY on a connection
+    that negotiated none, are the error "no compressor"; never a crash. -/
+theorem C18_handshake (c : Option Named) (version : UInt8) (parse : Bytes → Supported)
+    (sh : Head) (sr : Bytes) (rh : Head) (rr : Bytes) :
+    (∀ res, handshake c version parse sh sr rh rr = .ok res →
+        ∃ b, (newFramer (c.map (·.codec)) version).readFrame sh sr = .ok b ∧ res = connCompressor c (parse b)) ∧
+    (sh.flags &&& flagCompress = flagCompress → 0 ≤ sh.length → sh.length ≤ maxFrameSize →
+        sh.length.toNat ≤ sr.length → c = none →
+        handshake c version parse sh sr rh rr = .error .noCompressor) ∧
+    (∀ b, (newFramer (c.map (·.codec)) version).readFrame sh sr = .ok b →
+        rh.flags &&& flagCompress = flagCompress → 0 ≤ rh.length → rh.length ≤ maxFrameSize →
+        rh.length.toNat ≤ rr.length → connCompressor c (parse b) = none →
+        handshake c version parse sh sr rh rr = .error .noCompressor) ∧
+    handshake c version parse sh sr rh rr ≠ .error .panic := by
+  refine ⟨?_, ?_, ?_, ?_⟩
+  · intro res hres
+    unfold handshake at hres
+    cases hs : (newFramer (c.map (·.codec)) version).readFrame sh sr with
+    | error e => simp [hs] at hres
+    | ok b =>
+      simp only [hs] at hres
+      cases hq : (newFramer ((connCompressor c (parse b)).map (·.codec)) version).readFrame rh rr with
+      | error e => simp [hq] at hres
+      | ok b' =>
+        simp only [hq, Except.ok.injEq] at hres
+        exact ⟨b, rfl, hres.symm⟩
+  · intro hf h0 hmax hr hc
+    subst hc
+    have := (C18_unexpected_compressed (newFramer none version) sh sr hf h0 hmax hr).1 rfl
+    simp [handshake, this]
+  · intro b hs hf h0 hmax hr hn
+    have := (C18_unexpected_compressed (newFramer none version) rh rr hf h0 hmax hr).1 rfl
+    simp [handshake, hs, hn, this]
+  · unfold handshake
+    cases hs : (newFramer (c.map (·.codec)) version).readFrame sh sr with
+    | error e =>
+      simp only [hs]
+      intro hp; injection hp with hp; subst hp
+      exact readFrame_no_panic _ _ _ hs
+    | ok b =>
+      simp only [hs]
+      cases hq : (newFramer ((connCompressor c (parse b)).map (·.codec)) version).readFrame rh rr with
+      | error e =>
+        simp only [hq]
+        intro hp; injection hp with hp; subst hp
+        exact readFrame_no_panic _ _ _ hq
+      | ok b' => simp [hq]
+
+/-! ### negotiation is a function of THIS connection's SUPPORTED answer
+
+FULL STATEMENT: over any history of connections to one host (pool fill and refill, reconnects, the
+control connection; one long-lived HostInfo), whatever the node advertised on earlier connections:
+each connection sends OPTIONS, its STARTUP names a compressor only from the set advertised on THIS
+connection, and its frames are compressed only if that happened. Holds for the code that exists (no
+state is carried from one connection to the next); refuted for the variant that keeps the first
+SUPPORTED answer on the HostInfo (`C18_cex_cached_supported`). -/
+
+theorem runHist_perConn (name : Option String) (st : Option Supported) (advs : List Supported) :
+    runHist .perConn name st advs =
+      advs.map (fun adv => ({ optionsSent := true, nego := negotiate name adv } : ConnObs)) := by
+  induction advs generalizing st with
+  | nil => rfl
+  | cons a rest ih => simp [runHist, connect, ih]
+
+/-- **Negotiation per connection.** For every configured compressor name, every history of
+    advertisements (any length, any changes between connections) and whatever the HostInfo carried
+    before: the i-th connection sends OPTIONS, negotiates exactly `negotiate name (advs i)`; its
+    STARTUP COMPRESSION value, if any, is the configured name and is in the set advertised on this
+    connection; the compressor is kept iff that is so. -/
+theorem C18_negotiation_per_connection (name : Option String) (st : Option Supported)
+    (advs : List Supported) (i : Nat) (o : ConnObs) (adv : Supported)
+    (ho : (runHist .perConn name st advs)[i]? = some o) (ha : advs[i]? = some adv) :
+    o.optionsSent = true ∧ o.nego = negotiate name adv ∧
+    (∀ n, o.nego.startupOpt = some n → name = some n ∧ n ∈ lookup adv "COMPRESSION") ∧
+    (o.nego.keep = true ↔ ∃ n, name = some n ∧ n ∈ lookup adv "COMPRESSION") := by
+  rw [runHist_perConn, List.getElem?_map, ha] at ho
+  simp only [Option.map_some, Option.some.injEq] at ho
+  subst ho
+  refine ⟨rfl, rfl, ?_, ?_⟩
+  · intro n hn
+    cases name with
+    | none => simp [negotiate] at hn
+    | some m =>
+      by_cases hm : m ∈ lookup adv "COMPRESSION"
+      · simp [negotiate, hm] at hn; subst hn; exact ⟨rfl, hm⟩
+      · simp [negotiate, hm] at hn
+  · cases name with
+    | none => simp [negotiate]
+    | some m =>
+      by_cases hm : m ∈ lookup adv "COMPRESSION" <;> simp [negotiate, hm]
+
+example : runHist .perConn (some "snappy") none
+      [[("COMPRESSION", ["snappy", "lz4"])], [("COMPRESSION", ["lz4"])], [], [("COMPRESSION", ["snappy"])]]
+    = [⟨true, ⟨true, some "snappy"⟩⟩, ⟨true, ⟨false, none⟩⟩, ⟨true, ⟨false, none⟩⟩, ⟨true, ⟨true, some "snappy"⟩⟩] := by
+  decide
+
+/-- the cached variant violates it: the node first advertises snappy and lz4, then lz4 only; the
+    second connection sends no OPTIONS and asks for snappy, which was not advertised on it. Also the
+    replay history for the real code (op `negoh snappy oCOMPRESSION=snappy,lz4 oCOMPRESSION=lz4`). -/
+theorem C18_cex_cached_supported :
+    (runHist .cached (some "snappy") none [[("COMPRESSION", ["snappy", "lz4"])], [("COMPRESSION", ["lz4"])]])[1]?
+      = some ⟨false, ⟨true, some "snappy"⟩⟩ ∧
+    "snappy" ∉ lookup [("COMPRESSION", ["lz4"])] "COMPRESSION" := by
+  decide
 
 /-! ### ownership of the buffers that cross the compressor boundary (Model/CompressHeap.lean)
 
